@@ -184,6 +184,7 @@ Proof.
   - intros H; inversion H; subst; lia.
   - intros H; inversion H; subst; lia.
   - intros H; inversion H; subst; lia.
+  - intros H; inversion H; subst; lia.
 Qed.
 
 Theorem step_rec_preserves_past m o m' rs i :
@@ -198,6 +199,7 @@ Proof.
   - pose proof (tick_past m f i) as Ht. destruct (tick m f) as [m1 rs1]. cbn [fst] in Ht.
     intros H Hi; inversion H; subst. apply Ht. unfold off; lia.
   - intros H Hi; inversion H; subst. reflexivity.
+  - intros H; inversion H; subst; auto.
   - intros H; inversion H; subst; auto.
   - intros H; inversion H; subst; auto.
   - intros H; inversion H; subst; auto.
